@@ -229,7 +229,7 @@ fn hop_strategy() -> BoxedStrategy<HOp> {
     .boxed()
 }
 
-fn living(_t: Tier) -> BoxedStrategy<HCase> {
+pub fn living(_t: Tier) -> BoxedStrategy<HCase> {
     (small_mm(12), any::<bool>(), proptest::collection::vec(hop_strategy(), 1..9))
         .prop_map(|(base, in_index, ops)| HCase { base, in_index, ops })
         .boxed()
@@ -246,19 +246,88 @@ fn inner_mut(obj: &mut sourcemap::DecodedMap) -> &mut sourcemap::SourceMap {
     }
 }
 
-fn check_living(c: &HCase, obs: &mut Obs) -> Verdict {
-    use crate::engine::guard;
-    let sm = match c.base.build() {
-        Ok(m) => m,
-        Err(e) => return Verdict::Fail(format!("building the model failed: {e}")),
-    };
-    let mut obj = if c.in_index {
+pub fn build_living(c: &HCase) -> Result<sourcemap::DecodedMap, String> {
+    let sm = c.base.build().map_err(|e| format!("building the model failed: {e}"))?;
+    Ok(if c.in_index {
         sourcemap::DecodedMap::Index(sourcemap::SourceMapIndex::new(
             Some("bundle.js".into()),
             vec![sourcemap::SourceMapSection::new((0, 0), None, Some(sourcemap::DecodedMap::Regular(sm)))],
         ))
     } else {
         sourcemap::DecodedMap::Regular(sm)
+    })
+}
+
+/// Applies one op to the living object (panics are caught and reported as `Err`).
+pub fn apply_hop(obj: &mut sourcemap::DecodedMap, op: &HOp, obs: &mut Obs) -> Result<(), String> {
+    use crate::engine::guard;
+    let r = guard(|| -> Result<(), String> {
+        let sm = inner_mut(obj);
+        let n = sm.get_source_count();
+        match op {
+            HOp::Again => {}
+            HOp::Adjust(adj) => {
+                let adj = adj.build()?;
+                sm.adjust_mappings(&adj);
+            }
+            HOp::SetRoot(r) => sm.set_source_root(r.clone()),
+            HOp::SetSource(i, s) => {
+                if n > 0 {
+                    sm.set_source(u32::from(*i) % n, s);
+                }
+            }
+            HOp::SetContents(i, s) => {
+                if n > 0 {
+                    sm.set_source_contents(u32::from(*i) % n, s.as_deref());
+                }
+            }
+            HOp::SetFile(f) => sm.set_file(f.clone()),
+            HOp::SetDebugId(d) => sm.set_debug_id(d.as_ref().map(|d| d.parse().expect("pool ids parse"))),
+            HOp::Ignore(i) => {
+                if n > 0 {
+                    sm.add_to_ignore_list(u32::from(*i) % n);
+                }
+            }
+            HOp::Read(l, col) => {
+                let _ = sm.lookup_token(*l, *col);
+                let _ = sm.tokens().count();
+                let _ = sm.to_data_url().map_err(|e| e.to_string())?;
+            }
+            HOp::CloneSelf => {
+                let c = sm.clone();
+                *sm = c;
+            }
+        }
+        Ok(())
+    });
+    match r {
+        Ok(Ok(())) => {}
+        Ok(Err(e)) => return Err(format!("{op:?}: {e}")),
+        Err(p) => return Err(format!("{op:?}: {p}")),
+    }
+    obs.class(match op {
+        HOp::Again => "op:serialise-again",
+        HOp::Adjust(_) => "op:adjust_mappings",
+        HOp::SetRoot(_) => "op:set_source_root",
+        HOp::SetSource(..) => "op:set_source",
+        HOp::SetContents(..) => "op:set_source_contents",
+        HOp::SetFile(_) => "op:set_file",
+        HOp::SetDebugId(_) => "op:set_debug_id",
+        HOp::Ignore(_) => "op:add_to_ignore_list",
+        HOp::Read(..) => "op:read-only-use",
+        HOp::CloneSelf => "op:clone",
+    });
+    Ok(())
+}
+
+pub fn hop_mutates(op: &HOp) -> bool {
+    !matches!(op, HOp::Again | HOp::Read(..) | HOp::CloneSelf)
+}
+
+fn check_living(c: &HCase, obs: &mut Obs) -> Verdict {
+    let mut obj = match build_living(c) {
+        Ok(o) => o,
+        Err(e) => return Verdict::Fail(e),
     };
     obs.class(if c.in_index { "object-inside-index-section" } else { "object-top-level" });
     let verify = |obj: &sourcemap::DecodedMap, when: &str| -> Result<(), String> {
@@ -271,65 +340,10 @@ fn check_living(c: &HCase, obs: &mut Obs) -> Verdict {
     }
     let mut mutated_after_write = false;
     for (k, op) in c.ops.iter().enumerate() {
-        let r = guard(|| -> Result<(), String> {
-            let sm = inner_mut(&mut obj);
-            let n = sm.get_source_count();
-            match op {
-                HOp::Again => {}
-                HOp::Adjust(adj) => {
-                    let adj = adj.build()?;
-                    sm.adjust_mappings(&adj);
-                }
-                HOp::SetRoot(r) => sm.set_source_root(r.clone()),
-                HOp::SetSource(i, s) => {
-                    if n > 0 {
-                        sm.set_source(u32::from(*i) % n, s);
-                    }
-                }
-                HOp::SetContents(i, s) => {
-                    if n > 0 {
-                        sm.set_source_contents(u32::from(*i) % n, s.as_deref());
-                    }
-                }
-                HOp::SetFile(f) => sm.set_file(f.clone()),
-                HOp::SetDebugId(d) => sm.set_debug_id(d.as_ref().map(|d| d.parse().expect("pool ids parse"))),
-                HOp::Ignore(i) => {
-                    if n > 0 {
-                        sm.add_to_ignore_list(u32::from(*i) % n);
-                    }
-                }
-                HOp::Read(l, col) => {
-                    let _ = sm.lookup_token(*l, *col);
-                    let _ = sm.tokens().count();
-                    let _ = sm.to_data_url().map_err(|e| e.to_string())?;
-                }
-                HOp::CloneSelf => {
-                    let c = sm.clone();
-                    *sm = c;
-                }
-            }
-            Ok(())
-        });
-        match r {
-            Ok(Ok(())) => {}
-            Ok(Err(e)) => return Verdict::Fail(format!("op {k} {op:?}: {e}")),
-            Err(p) => return Verdict::Fail(format!("op {k} {op:?}: {p}")),
+        if let Err(e) = apply_hop(&mut obj, op, obs) {
+            return Verdict::Fail(format!("op {k} {e}"));
         }
-        obs.class(match op {
-            HOp::Again => "op:serialise-again",
-            HOp::Adjust(_) => "op:adjust_mappings",
-            HOp::SetRoot(_) => "op:set_source_root",
-            HOp::SetSource(..) => "op:set_source",
-            HOp::SetContents(..) => "op:set_source_contents",
-            HOp::SetFile(_) => "op:set_file",
-            HOp::SetDebugId(_) => "op:set_debug_id",
-            HOp::Ignore(_) => "op:add_to_ignore_list",
-            HOp::Read(..) => "op:read-only-use",
-            HOp::CloneSelf => "op:clone",
-        });
-        if !matches!(op, HOp::Again | HOp::Read(..) | HOp::CloneSelf) {
-            mutated_after_write = true;
-        }
+        mutated_after_write |= hop_mutates(op);
         if let Err(e) = verify(&obj, &format!("after op {k} {op:?} (ops so far {:?})", &c.ops[..=k])) {
             return Verdict::Fail(e);
         }
